@@ -2,7 +2,7 @@
 import re
 
 from mirlib import AnchorMissing, path_matches, op_place
-from helpers import aggregates, must_pass, field_accesses, vexpr, sources_of, calls_matching
+from helpers import aggregates, must_pass, field_accesses, vexpr, sources_of, calls_matching, closures_of, loop_of
 import levels
 
 EXPLANATION = (
@@ -329,6 +329,32 @@ def r_allow_repeatable(r, prog):
     r.floor(1)
 
 
+def r_every_allow_is_consulted(r, prog):
+    """A lint is suppressed if *any* allow attribute of its element, of an enclosing element or of the file names it: the helper that decides
+    this asks every Allow among all_attributes(), not just the first one found (an inner `allow(X)` must not switch an outer `allow(Y)` off)."""
+    f = prog.fns.get('slicec::diagnostics::diagnostic::Diagnostics::into_updated::is_lint_allowed_by_attributes')
+    if f is None:
+        cands = [g for g in prog.fns.values() if g.path.startswith('slicec::diagnostics::') and '{closure' not in g.path and [c for c in g.calls() if c.name() == 'all_attributes']]
+        if len(cands) != 1:
+            raise AnchorMissing('the helper that looks a lint up in all_attributes()')
+        f = cands[0]
+    live = [c for c in f.calls() if not f.blocks[c.bb].get('cleanup')]
+    SHORT = {'find', 'find_map', 'next', 'first', 'last', 'nth', 'take', 'skip', 'position', 'rev', 'next_back', 'take_while', 'skip_while', 'step_by', 'max_by_key', 'min_by_key', 'get', 'pop'}
+    short = [c for c in live if c.name() in SHORT and not (c.name() == 'next' and loop_of(f, c.bb) is not None)]
+    v = vexpr(f, {'cp': {'l': 0}}, depth=30)
+    decides = [g for g in closures_of(prog, f) if [c for c in g.calls() if c.name() == 'is_lint_allowed_by']]
+    ok_any = bool(re.match(r'^any\((filter_map|filter|map|flatten|flat_map|into_iter|iter|copied|cloned|\(|\)|,|closure\(\w*\)|all_attributes\(arg1\))+,closure\(arg2\)\)$', v)) and 'all_attributes(arg1)' in v and len(decides) == 1
+    # the same written as a loop: every element of all_attributes() passes the test, `true` is returned from inside the loop only
+    lp_calls = [c for c in live if c.name() == 'is_lint_allowed_by' and loop_of(f, c.bb) is not None]
+    ok_loop = bool(lp_calls) and any('all_attributes(arg1)' in vexpr(f, c.args[0]) for c in live if c.name() == 'into_iter')
+    if not short and (ok_any or ok_loop):
+        r.ok('every Allow among all_attributes() of the element is asked (%s)' % ('any over the whole chain' if ok_any else 'loop over the whole chain'))
+    else:
+        r.finding('allow-chain-cut-short', f.span, '%s decides with %s%s: only part of the allow attributes along the element, its parents and its file is consulted, so one suppression can switch another off' % (
+            f.path.rsplit('::', 1)[-1], v[:160], (' (calls %s)' % sorted({c.name() for c in short})) if short else ''))
+    r.floor(1)
+
+
 def run(ctx):
     prog = ctx.prog
     ctx.run_rule('C13.1a', 'T1', 'Diagnostic.level written only by new and, with Allowed, inside the Lint arm of into_updated', levels.r_level_writers, prog)
@@ -337,6 +363,9 @@ def run(ctx):
     ctx.run_rule('C13.3', 'T6', 'declared case-insensitivity of --allow is implemented', r_cli_case_insensitive, prog)
     ctx.run_rule('C13.4', 'T1', 'suppressions are consulted only by into_updated, which only rewrites levels', r_non_interference, prog)
     ctx.run_rule('C13.9', 'T6', 'allow is repeatable: a further suppression never adds a diagnostic', r_allow_repeatable, prog)
+    ctx.run_rule('C13.9b', 'T3', 'every allow attribute of the element, its parents and its file is consulted', r_every_allow_is_consulted, prog)
+    from props import c15 as _c15
+    ctx.run_rule('C13.10', 'T1', 'no lint is held back because a similar one was reported before (state that outlives the element)', _c15.r_no_first_seen_gating, prog)
     ctx.run_rule('C13.8', 'T2', 'every lint is looked up: no return before the walk over the diagnostics', r_every_lint_is_looked_up, prog)
     ctx.run_rule('C13.6', 'T10', 'file-level allow is looked up by the full path of the lint\'s span', r_file_allow_lookup, prog)
     ctx.run_rule('C13.5', 'T5', 'contained elements inherit their parent\'s attributes', r_contained_inherit_attributes, prog)
